@@ -258,8 +258,16 @@ func (r *schemaLoader) deref(input interface{}, parentRefs []string, basePath st
 		return r, basePath, nil
 	}
 
+	// the target is decoded over the input, which would keep its own $ref whenever the target holds none:
+	// start from a blank one, so that the $ref found afterwards is the target's
 	followed := *ref
-	if err := r.resolveRef(ref, input, basePath); r.shouldStopOnError(err) {
+	*ref = Ref{}
+	err := r.resolveRef(&followed, input, basePath)
+	if err != nil {
+		// nothing has been resolved: the $ref stays as it was
+		*ref = followed
+	}
+	if r.shouldStopOnError(err) {
 		return r, basePath, err
 	}
 
@@ -268,8 +276,11 @@ func (r *schemaLoader) deref(input interface{}, parentRefs []string, basePath st
 	transitiveResolver := r.transitiveResolver(basePath, followed)
 	basePath = r.updateBasePath(transitiveResolver, basePath)
 
-	if ref.String() == "" || ref.String() == curRef {
-		// done with rereferencing
+	if ref.String() == "" || err != nil {
+		// done with rereferencing.
+		//
+		// NOTE: a target that holds a $ref with the very same text as the one just followed is followed in turn:
+		// read from the document of the target, the same relative text may designate another document.
 		return transitiveResolver, basePath, nil
 	}
 
